@@ -24,8 +24,9 @@ impl Gen {
                 if ft.tasks.iter().any(|x| x.period > 0.0) {
                     t.push("ft_rescheduling_task".into());
                 }
-                if ft.tasks.iter().filter(|x| x.period > 0.0).count() >= 2 {
-                    t.push("ft_two_or_more_rescheduling_tasks".into());
+                // closures that running tasks hand to the scheduler: one per self-rescheduling task and one per chained task
+                if ft.tasks.iter().filter(|x| x.period > 0.0 || x.at.is_none()).count() >= 2 {
+                    t.push("ft_two_or_more_closures_scheduled_by_tasks".into());
                 }
                 t
             }
@@ -811,7 +812,7 @@ fn mkcounter() -> Item {
 
 // ================================================================== FA: aggregates
 
-const FA_RADIX: u64 = 26;
+const FA_RADIX: u64 = 28;
 pub fn fa_count(k: u32) -> u64 {
     seq_count(FA_RADIX, k)
 }
@@ -977,8 +978,8 @@ fn fa_stmt(c: &mut ACtx, o: u64) -> Option<()> {
             let s = c.sites.next();
             c.push(v, ATy::T2, call("pick", vec![var(&r)], s), "call pick(record with tuple field)".into());
         }
-        21..=25 => {
-            // default arguments and parameter packs
+        21..=27 => {
+            // default arguments and parameter packs (a trailing field named ".." prints the open form `{q = a, ..}`)
             c.need("defa");
             let v = c.fresh("p");
             let s = c.sites.next();
@@ -987,7 +988,9 @@ fn fa_stmt(c: &mut ACtx, o: u64) -> Option<()> {
                 22 => (E::CallPack("defa".into(), vec![("q".into(), c.f(0)?)], s), "defa({q = a})"),
                 23 => (E::CallPack("defa".into(), vec![("p".into(), c.f(1)?)], s), "defa({p = a})"),
                 24 => (E::CallPack("defa".into(), vec![("q".into(), c.f(0)?), ("p".into(), c.f(2)?)], s), "defa({q = a, p = b})"),
-                _ => (call("defa", vec![c.f(0)?, c.f(2)?], s), "defa(a, b)"),
+                25 => (call("defa", vec![c.f(0)?, c.f(2)?], s), "defa(a, b)"),
+                26 => (E::CallPack("defa".into(), vec![("q".into(), bin("+", c.f(0)?, num(1.0))), ("..".into(), num(0.0))], s), "defa({q = a + 1, ..})"),
+                _ => (E::CallPack("defa".into(), vec![("p".into(), c.f(1)?), ("..".into(), num(0.0))], s), "defa({p = a, ..})"),
             };
             c.push(v, ATy::F, e, what.into());
         }
